@@ -1,7 +1,7 @@
 ----------------------------- MODULE LineEditTrace -----------------------------
 (* Trace specification for X05: events logged by harness/console around the real Console::Prompt on a pty.
      reset                      a new terminal
-     open                       the Prompt is constructed
+     open  u8                   the Prompt is constructed (u8 = 1: in a UTF-8 locale)
      line  prompt               the application calls getLine(prompt); observed when the prompt sleeps or has returned
      key   k                    the terminal sent the bytes k while getLine was running; observed likewise
      ahead k                    the terminal sent the bytes k while no getLine was running (type-ahead)
@@ -10,7 +10,7 @@
    states LineEdit allows for the events so far; an event that no candidate explains is a MISMATCH, after which the
    rest of that execution is not judged (the candidates are replaced by a "dead" state).                          *)
 EXTENDS LineEdit, Json, IOUtils
-VARIABLES cands, l, nbad
+VARIABLES cands, l, nbad, nscr, ndead      \* nscr: events whose screen was judged; ndead: events not judged at all
 T == ndJsonDeserialize(IOEnv.TRACE)
 
 Dead == [Init0 EXCEPT !.sync = "dead"]
@@ -23,19 +23,22 @@ After(e) ==
     [] e.op = "close" -> IF e.modeok = 1 THEN {s \in cands : s.mode = "idle" \/ s.sync = "dead"} ELSE {}
     [] OTHER -> cands
 
-TInit == l = 1 /\ nbad = 0 /\ cands = {Init0} /\ st = Init0 /\ ok = TRUE      \* st, ok: variables of the stand-alone model, unused here
+TInit == l = 1 /\ nbad = 0 /\ nscr = 0 /\ ndead = 0 /\ cands = {Init0} /\ st = Init0 /\ ok = TRUE      \* st, ok: variables of the stand-alone model, unused here
 TStep ==
   /\ l <= Len(T)
   /\ l' = l + 1
   /\ UNCHANGED vars
   /\ LET e == T[l] IN
-     IF e.op \in {"reset", "open"} THEN cands' = {Init0} /\ UNCHANGED nbad
+     IF e.op = "reset" THEN cands' = {Init0} /\ UNCHANGED <<nbad, nscr, ndead>>
+     ELSE IF e.op = "open" THEN cands' = {[Init0 EXCEPT !.u8 = (e.u8 = 1)]} /\ UNCHANGED <<nbad, nscr, ndead>>
      ELSE LET nx == After(e) IN
-          IF nx # {} THEN cands' = nx /\ UNCHANGED nbad
-          ELSE PrintT(<<"MISMATCH", l, e.op>>) /\ cands' = {Dead} /\ nbad' = nbad + 1
-TDone == l = Len(T) + 1 /\ PrintT(<<"TRACE-DONE", Len(T), nbad>>) /\ l' = l + 1 /\ UNCHANGED <<cands, nbad, vars>>
+          /\ nscr' = IF e.op \in {"line", "key"} /\ \E o \in nx : ScreenJudged(o) THEN nscr + 1 ELSE nscr
+          /\ ndead' = IF \E o \in nx : o.sync = "dead" THEN ndead + 1 ELSE ndead
+          /\ IF nx # {} THEN cands' = nx /\ UNCHANGED nbad
+             ELSE PrintT(<<"MISMATCH", l, e.op>>) /\ cands' = {Dead} /\ nbad' = nbad + 1
+TDone == l = Len(T) + 1 /\ PrintT(<<"TRACE-DONE", Len(T), nbad, nscr, ndead>>) /\ l' = l + 1 /\ UNCHANGED <<cands, nbad, nscr, ndead, vars>>
 TNext == TStep \/ TDone
-TSpec == TInit /\ [][TNext]_<<cands, l, nbad, vars>>
+TSpec == TInit /\ [][TNext]_<<cands, l, nbad, nscr, ndead, vars>>
 \* the reference's own invariant on every candidate state
 TInv == \A s \in cands : s.sync = "dead" \/ StateOK(s)
 ================================================================================
